@@ -18,7 +18,7 @@ class RecursiveSeqletEmit(FragmentContract):
     prefix_sum_diff) - in particular no index of the prefix-sum table wraps around."""
     qualname = 'tangermeme.seqlet._recursive_seqlets'
     props = ('C19',)
-    stmt_block = ('start = max(start - additional_flanks, 0)', 4)
+    stmt_block = ('start = max(start - additional_flanks, 0)', ('until', 'seqlets.append('))
     key = 'tangermeme.seqlet._recursive_seqlets#emit'
 
     def make_env(self, cfg, A):
